@@ -12,7 +12,11 @@ package main
 // — the condition does not mention ctx, the body is one unconditional return, nothing in
 // `eval`/`callFunction`/`callObject` ever stores to the flag (only `start`, its watcher and
 // `resetForNewCode` do), `callFunction` hands the context IT was given to `eval`, and the
-// public callback API (`object.WithCallFunc`) is `vm.callFunction` itself.  The facts are
+// public callback API (`object.WithCallFunc`) is `vm.callFunction` itself.  The deferred calls
+// of a frame are run by ONE Go-level defer of `callFunction` whose first statement is the loop
+// over `callFrame.defers`, each through `vm.callObject(ctx, …)` with the same context, and
+// nothing in it mentions the halt flag (model: `leaveT` — a deferred closure's first
+// instruction polls the flag like any other; `halt_stops_deferred_calls`).  The facts are
 // regenerated on every run and compared with the model's expectations in C06/Ties.lean.
 
 import (
@@ -233,6 +237,51 @@ func init() {
 			}
 			return true
 		})
+		// callFunction: the Go-level `defer func() { for _, partial := range callFrame.defers { … } }()`
+		// that runs the deferred calls of the frame: how many there are, whether the loop is its
+		// first statement (it runs however the frame is left), how each partial is called, and
+		// whether anything in it reads or writes the halt flag
+		runners, runnerLoopFirst, runnerTouchesHalt, runnerCall := 0, false, false, ""
+		ast.Inspect(callFn.Body, func(n ast.Node) bool {
+			ds, ok := n.(*ast.DeferStmt)
+			if !ok {
+				return true
+			}
+			lit, ok := ds.Call.Fun.(*ast.FuncLit)
+			if !ok {
+				return true
+			}
+			var loop *ast.RangeStmt
+			ast.Inspect(lit.Body, func(m ast.Node) bool {
+				if r, ok := m.(*ast.RangeStmt); ok && loop == nil {
+					if sel, ok := r.X.(*ast.SelectorExpr); ok && sel.Sel.Name == "defers" {
+						loop = r
+					}
+				}
+				return true
+			})
+			if loop == nil {
+				return true
+			}
+			runners++
+			if runners > 1 {
+				return true
+			}
+			runnerLoopFirst = len(lit.Body.List) > 0 && lit.Body.List[0] == ast.Stmt(loop)
+			ast.Inspect(lit.Body, func(m ast.Node) bool {
+				if sel, ok := m.(*ast.SelectorExpr); ok && sel.Sel.Name == "halt" {
+					runnerTouchesHalt = true
+				}
+				return true
+			})
+			ast.Inspect(loop.Body, func(m ast.Node) bool {
+				if c, ok := m.(*ast.CallExpr); ok && runnerCall == "" && types.ExprString(c.Fun) == "vm.callObject" {
+					runnerCall = types.ExprString(c)
+				}
+				return true
+			})
+			return true
+		})
 		// initContext: what is registered as the call function
 		registered := ""
 		ast.Inspect(initCtx.Body, func(n ast.Node) bool {
@@ -268,6 +317,11 @@ func init() {
 		s += "def callFunctionEvalArg : String := " + fmt.Sprintf("%q", evalArg) + "\n"
 		s += "def callFunctionReassignsCtx : Bool := " + b(ctxReassigned) + "\n"
 		s += "/-- `initContext`: the function registered with `object.WithCallFunc` (the public callback API) -/\ndef registeredCallFunc : String := " + fmt.Sprintf("%q", registered) + "\n"
+		s += "/-- `callFunction`: the Go-level `defer` that runs the frame's deferred partials (`range callFrame.defers`): how many there are, whether the loop is the first statement of the deferred function (no early return before it), the call that runs a partial, whether anything in it mentions the halt flag -/\n"
+		s += "def deferRunnerCount : Nat := " + fmt.Sprint(runners) + "\n"
+		s += "def deferRunnerLoopFirst : Bool := " + b(runnerLoopFirst) + "\n"
+		s += "def deferRunnerCall : String := " + fmt.Sprintf("%q", runnerCall) + "\n"
+		s += "def deferRunnerTouchesHalt : Bool := " + b(runnerTouchesHalt) + "\n"
 		s += "\nend Risor.Generated.C06\n"
 		return s
 	}})
